@@ -117,17 +117,6 @@ Proof.
 Qed.
 
 (* ---------- reading back part of an array ---------- *)
-Lemma topbits_firstn bits k : bytes_ok bits -> (k <= length bits)%nat ->
-  bytes_of (topbits bits (8 * N.of_nat k)) (8 * N.of_nat k) (8 * N.of_nat k) = firstn k bits.
-Proof.
-  intros Hb Hk. rewrite <- (firstn_skipn k bits) at 1. unfold topbits.
-  rewrite be_val_app, app_length, firstn_length, Nat.min_l by exact Hk.
-  pose proof (be_val_lt (skipn k bits) (bytes_ok_skipn _ _ Hb)) as Hlt.
-  replace (8 * N.of_nat (k + length (skipn k bits)) - 8 * N.of_nat k) with (8 * N.of_nat (length (skipn k bits))) by lia.
-  rewrite N.div_add_l by (apply N.pow_nonzero; discriminate). rewrite (N.div_small _ _ Hlt), N.add_0_r.
-  pose proof (bytes_of_whole (firstn k bits) (bytes_ok_firstn _ _ Hb)) as H. rewrite firstn_length, Nat.min_l in H by exact Hk. exact H.
-Qed.
-
 Lemma rbit_abvs s b t P p : RA s -> Forall aop_ok t -> p < 2 ^ P ->
   uval s = fst (abvs (AOp (WBit b) :: t)) * 2 ^ P + p -> total s = snd (abvs (AOp (WBit b) :: t)) + P ->
   exists s', read_bit s = (s', Val (b mod 2)) /\ RA s' /\ uval s' = fst (abvs t) * 2 ^ P + p /\ total s' = snd (abvs t) + P.
